@@ -133,6 +133,41 @@ class Module:
         return '%s:%d' % (self.relpath, getattr(node, 'lineno', 0))
 
 
+def _always_exits(stmts):
+    if not stmts:
+        return False
+    last = stmts[-1]
+    if isinstance(last, (ast.Raise, ast.Return, ast.Continue, ast.Break)):
+        return True
+    if isinstance(last, ast.If):
+        return _always_exits(last.body) and _always_exits(last.orelse)
+    return False
+
+
+def established_false(mod, func, node):
+    """tests known to be false when `node` executes: enclosing if/elif tests with negative polarity and the tests of preceding
+    sibling if/elif chains (in any enclosing block of the function) whose branch leaves the block (raise/return/continue/break)"""
+    out = [t for t, pol in guards_of(mod, node, stop=func) if not pol]
+    cur = node
+    while cur is not func and cur is not None:
+        par = mod.parents.get(cur)
+        if par is None:
+            break
+        for field in ('body', 'orelse', 'finalbody'):
+            blk = getattr(par, field, None)
+            if isinstance(blk, list) and cur in blk:
+                for prev in blk[:blk.index(cur)]:
+                    x = prev
+                    while isinstance(x, ast.If):
+                        if _always_exits(x.body):
+                            out.append(x.test)
+                        else:
+                            break
+                        x = x.orelse[0] if len(x.orelse) == 1 and isinstance(x.orelse[0], ast.If) else None
+        cur = par
+    return out
+
+
 class Repo:
     def __init__(self, root=None):
         self.root = root or os.environ.get('VERIF_REPO', '/repo')
